@@ -450,7 +450,7 @@ struct World {
     World(const Ctx &ctx, Ev &e, const Script &s) : c(ctx), ev(e), script(s) { }
     void hist(const std::string &x)
     {
-        hist(x);
+        history += x;
         ev.rec('H', x);
     }
 
